@@ -39,3 +39,6 @@ CFG = {'harness': 'det',
                'burst-msb-first-generator-multiple are accepted by model and implementation alike)',
  'note': 'model = spec by C03_chunk_exact, so a difference is an input on which the implementation departs from the '
          'documented chunk layout or CRC rule'}
+
+# translator plugins this property needs besides the board tables of tools/gen.py (none)
+CFG["gen_plugins"] = []
